@@ -28,7 +28,7 @@ std::vector<std::pair<int, int>> weights(const std::string &id) {
   auto setw = [&](int code, int wt) { for (auto &x : w) if (x.second == code) x.first = wt; };
   if (id == "C09") { setw(O_ADD_RING, 10); setw(O_SET_EDGE, 0); setw(O_SET_FACE, 0); setw(O_SET_CELL, 0); setw(O_CLEAR, 0); setw(O_ADD_FACE_V, 3); setw(O_ADD_FACE_HE, 2); }
   if (id == "C08") { add(8, O_TRY_FACE); setw(O_SET_EDGE, 0); setw(O_SET_FACE, 0); setw(O_SET_CELL, 0); }
-  if (id == "C10") { setw(O_EN_VBU, 3); setw(O_EN_EBU, 2); setw(O_EN_FBU, 2); setw(O_SET_EDGE, 0); setw(O_SET_FACE, 0); setw(O_SET_CELL, 0); setw(O_QUERY, 3); }
+  if (id == "C10") { setw(O_EN_VBU, 3); setw(O_EN_EBU, 2); setw(O_EN_FBU, 2); setw(O_SET_EDGE, 3); setw(O_SET_FACE, 0); setw(O_SET_CELL, 0); setw(O_QUERY, 3); }
   if (id == "C11") { add(14, O_TRY_FACE); add(14, O_TRY_CELL); setw(O_QUERY, 0); setw(O_ADD_EDGE, 10); setw(O_EN_VBU, 3); add(4, O_PROP_CREATE); add(4, O_PROP_WRITE); }
   return w;
 }
@@ -50,7 +50,7 @@ vf::CaseResult run_case(const std::string &id, const Program &prog, Stats &st) {
     S.deferred = (m & 1) != 0;
     S.fast = (m & 2) != 0;
   }
-  if (id == "C08" || id == "C09" || id == "C10") I.allow_set = false;
+  if (id == "C08" || id == "C09") I.allow_set = false;  // C10: set_edge only (weights), states "reachable as in C01"
   if (id == "C10") I.allow_selfloop = false;
   PropBank bank(I);
   C05Ctx c05;
@@ -211,4 +211,4 @@ vf::CaseResult run_case(const std::string &id, const Program &prog, Stats &st) {
 
 }  // namespace target
 
-int main(int argc, char **argv) { return vf::generic_main(argc, argv); }
+VF_DEFINE_MAIN
